@@ -53,3 +53,19 @@ Example C13_same_decode_plan_nonvacuous :
   decode_plan (fun _ => ENone) FBasic (Some T) usr U U ds = [("bb", ENone, false); ("nt", ENone, true); ("dt", EFun 9, false)] /\
   decode_plan (fun _ => ENone) FToml (Some T) None U F ds = [("bb", ENone, false); ("nt", ENone, false); ("dt", EStrat 0, false)].
 Proof. repeat split; vm_compute; reflexivity. Qed.
+
+(* ---- the remaining option, pack side: no_copy_collections at the default-dialect level ---- *)
+Theorem C13_format_no_copy_table :
+  map fmt_nc all_fmts = [None; None; None; Some [1; 2]; Some [1; 2]; Some [1; 2]]%nat.
+Proof. exact fmt_nc_table. Qed.
+Print Assumptions C13_format_no_copy_table.
+
+Theorem C13_no_copy_user_wins : forall f l, codec_nc f (Some (Some l)) = l.
+Proof. exact codec_nc_user_wins. Qed.
+Print Assumptions C13_no_copy_user_wins.
+
+Theorem C13_no_copy_format_default :
+  forall f D, (match D with Some (Some _) => False | _ => True end) ->
+    codec_nc f D = match fmt_nc f with Some l => l | None => [] end.
+Proof. exact codec_nc_format_default. Qed.
+Print Assumptions C13_no_copy_format_default.
